@@ -600,6 +600,48 @@ def run(prog, rep, tier):
     if n811 < 10:
         raise CheckerError("R8.11: only %d assignments to tv_sec/tv_usec variables found" % n811)
 
+    # ------------------------------------------------------------ R8.12 a bad sub-second field never costs the record
+    # tv_usec "merely supplements the more coarse tv_sec": chrono rejects nanoseconds >= 2e9, which a stored
+    # tv_usec of 2000000..4294967 produces after the *1000.  The conversion may give up (Err: the record is
+    # skipped) only after it has tried the seconds alone: every Err return lies behind the None arm of a
+    # timestamp_opt call whose nanosecond argument is the constant 0 (or is reduced below 1e9 by % / min).
+    R812 = rep.rule("R8.12", "convert_tvpair_to_datetime gives up only after trying the seconds with zero nanoseconds")
+    cvb = prog.body("s4lib::data::fixedstruct::convert_tvpair_to_datetime")
+    tso = [c for c in cvb.live_calls() if c.d.endswith("TimeZone::timestamp_opt")]
+    if not tso:
+        raise CheckerError("convert_tvpair_to_datetime: no timestamp_opt call")
+    safe_none = set()
+    for c in tso:
+        ns = c.args[-1]
+        bounded = (cvb.eval_int(ns) == 0)
+        if not bounded and ns[0] != "k":
+            for x in cvb.origins(ns):
+                if x[0] == "bin":
+                    st_ = cvb.stmts(x[1])[x[2]]
+                    if st_[2][1].startswith("Rem"):
+                        bounded = True
+                elif x[0] == "call" and x[2].split("::")[-1] in ("min", "clamp", "rem_euclid"):
+                    bounded = True
+        if bounded and c.target is not None:
+            # the None arm of the match on its result
+            t_ = cvb.term(c.target)
+            if t_[0] == "switch":
+                # the None arm is the one that does not bind a datetime: the arm(s) from which an Err is built
+                for tgt_ in set(cvb.succ[c.target]):
+                    safe_none.add(tgt_)
+    errs = []
+    for bb in sorted(cvb.live):
+        for s_ in cvb.stmts(bb):
+            if s_[0] == "=" and s_[1] == [0] and s_[2][0] == "agg" and isinstance(s_[2][1], dict) and s_[2][1].get("variant") == "Err":
+                errs.append(bb)
+    early = [bb for bb in errs if not any(cvb.dominates(sn, bb) for sn in safe_none)]
+    rep.examined(R812, cvb.path, sample={"timestamp_opt_calls": len(tso), "calls_with_safe_nanoseconds": len(safe_none), "Err_returns": len(errs), "Err_returns_before_the_zero_nanosecond_attempt": len(early)})
+    if not errs:
+        raise CheckerError("convert_tvpair_to_datetime: no Err return recognised")
+    if early:
+        rep.violation(R812, cvb.path + "|retry", "convert_tvpair_to_datetime returns Err (line %s) without having tried timestamp_opt(tv_sec, 0); a record whose tv_usec is 2000000..4294967 (nanoseconds >= 2e9, which chrono rejects) "
+                      "is skipped although its seconds are fine" % cvb.blocks[early[0]].get("l"))
+
     # ------------------------------------------------------------ R8.10 string bytes of a record are copied, not reinterpreted
     # Fixed-size string fields are arrays of c_char (i8 on most layouts).  A byte above 0x7F is a
     # negative i8; converting with a *checked* i8 -> u8 conversion and substituting a constant on
